@@ -356,3 +356,82 @@ def crossfile_random(rng):
             files["src/cmds/c%d.rs" % k] = [root_fn(kind, "op_%d" % k, t, nm, "evt-%d" % k)]
             k += 1
     return project(None, files=files)
+
+
+# ----------------------------------------------------------------------------- one event name, several sites, different payloads
+
+def multisite_cases():
+    """The same event name emitted from 2 or 3 places with different payload types, in every order of
+    the sites (item order inside one file, sorted path order across files); each payload type has a
+    nested dependency and is reachable from nothing but its emit site. The listener is typed from the
+    first site; every site's payload type and its dependencies have to be declared."""
+    import itertools
+    out = []
+    names = ["JobStarted", "JobFinished", "JobFailed"]
+    for k in (2, 3):
+        for perm in itertools.permutations(range(k)):
+            for layout in ("one-file", "files"):
+                for kind in ("event_helper", "event_literal", "event_emit_to"):
+                    types, fns = [], []
+                    for pos, i in enumerate(perm):
+                        nm = names[i]
+                        types += [st(nm, [("id", P("i32")), ("detail", P("Vec", P(nm + "Detail")))]), st(nm + "Detail", [("msg", P("String"))])]
+                        fns.append(root_fn(kind, "emit_%d" % pos, P(nm), nm, "job-status"))
+                    if layout == "one-file":
+                        files = {"src/lib.rs": [fn("ping", [], None)] + fns + types}
+                    else:
+                        files = {"src/lib.rs": [fn("ping", [], None)], "src/models.rs": types}
+                        for pos, f in enumerate(fns):
+                            files["src/emit/%s.rs" % "abc"[pos]] = [f]
+                    out.append(("multisite/%d/%s/%s/%s" % (k, "".join(map(str, perm)), layout, kind), project(None, files=files)))
+    # one of the payload types is also a command parameter; an enum payload beside a struct payload
+    out.append(("multisite/mixed-reachability", project([
+        st("Alpha", [("x", P("i32"))]), st("Beta", [("a", P("Option", P("BetaDep")))]), st("BetaDep", [("y", P("i32"))]), en("Phase"),
+        fn("use_alpha", [("a", P("Alpha"))], None),
+        fn("e1", [APP, ("p", P("Beta"))], None, [emit("tick", ["var", "p"])], command=False),
+        fn("e2", [APP, ("p", P("Alpha"))], None, [emit("tick", ["var", "p"])], command=False),
+        fn("e3", [APP, ("p", P("Phase"))], None, [emit("tick", ["var", "p"])], command=False)])))
+    return out
+
+
+# ----------------------------------------------------------------------------- histories on one output directory
+
+def strip_events(case):
+    """The same project without any emit statement."""
+    c = copy.deepcopy(case)
+    for its in c["files"].values():
+        for it in its:
+            if it["kind"] == "fn":
+                it["body"] = [s for s in it.get("body", []) if not isinstance(s, dict)]
+    return c
+
+
+def with_extra_event(case, tag="Gone"):
+    """The same project plus a payload struct (with a dependency) and a helper that emits it."""
+    c = copy.deepcopy(case)
+    f0 = sorted(c["files"])[0]
+    c["files"][f0] = c["files"][f0] + [st(tag + "Payload", [("d", P(tag + "Dep"))]), st(tag + "Dep", [("v", P("i32"))]),
+                                       fn("emit_" + tag.lower(), [APP, ("pl", P(tag + "Payload"))], None, [emit(tag.lower() + "-event", ["var", "pl"])], command=False)]
+    return c
+
+
+def history_pairs(rng, n):
+    """(label, first case, first mode, second case, second mode): the second generation goes into the
+    output directory the first one filled; the second run is the one judged."""
+    out = []
+    pool = [c for _, c in adversarial()] + [c for _, c in crossfile_matrix()]
+    for i in range(n):
+        base = rng.choice(pool) if rng.random() < 0.5 else random_case(rng, False)[0]
+        kind = rng.choice(["event-removed", "event-removed", "event-added", "unrelated", "same"])
+        m2 = rng.choice(["none", "zod"])
+        m1 = m2 if rng.random() < 0.6 else ("zod" if m2 == "none" else "none")
+        if kind == "event-removed":
+            first, second = with_extra_event(base), strip_events(base)
+        elif kind == "event-added":
+            first, second = strip_events(base), with_extra_event(base)
+        elif kind == "unrelated":
+            first, second = crossfile_random(rng), base
+        else:
+            first, second = base, base
+        out.append(("history-%d/%s/%s-then-%s" % (i, kind, m1, m2), first, m1, second, m2))
+    return out
